@@ -551,6 +551,11 @@ def gen_bay(rng):
                            Nxy=rng.choice([0., rng.uniform(-2, 2)])),
                 flags=gen_flags(rng),
                 stiffs=[], forces_skin=[])
+    if rng.random() < 0.4:
+        # a uniform CONSTANT membrane pre-load on every skin piece (it enters calc_k0 as an initial-stress term integrated over the piece's
+        # own strip - also for the piece that starts exactly at y1 = 0): splitting the skin must not change k0
+        case['loads'].update(Nxx_cte=rng.choice([-1, 1]) * rng.uniform(1e4, 1e6), Nyy_cte=rng.choice([0., rng.uniform(-1e5, 1e5)]),
+                             Nxy_cte=rng.choice([0., rng.uniform(-1e5, 1e5)]))
     types = []
     for t in ('b1', 'b2', 't'):
         types += [t] * rng.choice([0, 0, 1, 1, 2])
@@ -979,6 +984,9 @@ def oracle_checks(ctx, case, bay, G, rng, PIECE):
                     S += dense(pc.quiet(getattr(p, 'calc_' + what), size=skin, row0=0, col0=0, silent=True, finalize=False), skin)
             prm = dict(params, delta=p0.offset)
             want = panel_v.oracle_matrix(bay.model, p0, what, prm, skin, 0, 0, None)
+            if what == 'k0' and any(case['loads'].get(k_) for k_ in ('Nxx_cte', 'Nyy_cte', 'Nxy_cte')):
+                want = want + panel_v.oracle_matrix(bay.model, p0, 'kG0', dict(Nxx=case['loads'].get('Nxx_cte', 0.), Nyy=case['loads'].get('Nyy_cte', 0.),
+                                                                               Nxy=case['loads'].get('Nxy_cte', 0.)), skin, 0, 0, None)
             STATS['oracle_checks'] += 1
             d = rel(fin_sym(S), fin_sym(want), PIECE.get(what, 0.))
             if d > 1e-8:
@@ -1427,8 +1435,58 @@ def describe(case, dist):
     return len(kinds) >= 2 and len(set(kinds)) >= 2
 
 
+BAY_EDITS = ['mu', 'stack', 'loads', 'mu_one_panel']
+
+
+def bay_redefinition(ctx, rng, t):
+    """ONE bay object is evaluated, the definition of its skin panels is edited (density, a ply angle, the membrane loads; on every panel or on one
+    panel only), and it is evaluated again: the global matrices must be those of a freshly built bay with the edited data - the sum of the
+    components as they are NOW.  returns (description, failure text or None)"""
+    edit = BAY_EDITS[t % len(BAY_EDITS)]
+    case = gen_bay(rng)
+    case['stiffs'] = [s_ for s_ in case['stiffs'] if not (s_['type'] == 'b1' and s_['base'])][:1]      # (b1 with base: recorded finding for kM)
+    if not case['cuts']:
+        case['cuts'] = [0.37 * case['b']]
+    try:
+        bay, _ = build_bay(case)
+    except Exception:                                # noqa
+        return None, None
+    what = dict(mu='kM', mu_one_panel='kM', stack='k0', loads='kG0')[edit]
+    first, e = bay_global(case, bay, what)
+    if e:
+        return None, None
+
+    def apply(b_):
+        for k_, p_ in enumerate(b_.panels):
+            if edit == 'mu' or (edit == 'mu_one_panel' and k_ == len(b_.panels) - 1):
+                p_.mu = 3.5 * case['mu']
+            elif edit == 'stack':
+                p_.stack = [a_ + 25. for a_ in p_.stack]
+            elif edit == 'loads':
+                p_.Nxx, p_.Nyy, p_.Nxy = -2.5, 0.75, 1.25
+    apply(bay)
+    again, e = bay_global(case, bay, what)
+    fresh_bay, _ = build_bay(case)
+    apply(fresh_bay)
+    want, e2 = bay_global(case, fresh_bay, what)
+    desc = dict(kind='bay redefinition', edit=edit, matrix=what, cuts=case['cuts'], curved=case['curved'],
+                stiffs=[(s_['type'], s_['base'], s_['flange']) for s_ in case['stiffs']])
+    if e or e2:
+        return desc, ('calc_%s raises %s after the edit' % (what, e)) if (e and not e2) else None
+    d = rel(again, want)
+    if d > 1e-12:
+        return desc, ('calc_%s of a bay whose skin panels were edited (%s) after a first evaluation differs from that of a freshly built bay with the '
+                      'same edited panels: rel %.3e (the edit itself changes the matrix by %.3e)' % (what, edit, d, rel(first, want)))
+    return desc, None
+
+
 def correspondence(ctx):
     rng = ctx.rng
+    for t in range(ctx.scale(len(BAY_EDITS), 4 * len(BAY_EDITS))):
+        desc, bad = bay_redefinition(ctx, rng, t)
+        ctx.evaluations += 1
+        if bad and ctx.violation('C13 fails on the implementation: ' + bad, dict(case=desc)):
+            return
     # stiffener kernels: translator validation, source reading, energies on the running kernels
     if not stiff_validation(ctx, rng):
         return
